@@ -67,6 +67,20 @@ def along(pts, lens, r, s):
     return [float(c) for c in pts[-1]], float(r[-1])
 
 
+def radius_range(pts, lens, r, s, delta):
+    """the radii the piecewise linear interpolant takes on arc lengths [s - delta, s + delta]: where the branch has a zero-length segment
+    whose two ends carry different radii the interpolant jumps, and (arc lengths being rounded sums) every value of the jump is linear
+    interpolation along the branch"""
+    vals = [along(pts, lens, r, max(0.0, s - delta))[1], along(pts, lens, r, s)[1], along(pts, lens, r, min(sum(lens), s + delta))[1]]
+    acc = 0.0
+    for k in range(len(r)):
+        if abs(acc - s) <= delta:
+            vals.append(float(r[k]))
+        if k < len(lens):
+            acc += lens[k]
+    return min(vals), max(vals)
+
+
 EPS32 = 2.0 ** -23      # float32 machine epsilon: coordinates are stored in float32, a stored value is off by at most EPS32/2 * |value|
 
 # INPUT FAMILY "coordinates at offsets 10^k": the same lattice shapes far away from the origin (whole-brain / nanometre coordinate systems)
@@ -548,6 +562,110 @@ def reuse_sessions(rng, big):
     return out
 
 
+PIPE_BETWEEN = ["smooth", "scale", "edit", "reread", "none", "smooth+scale"]
+
+
+def pipeline_cases(rng, big):
+    """INPUT FAMILY "the result of one transform is the input of the next" (clean-up pipelines: resample -> something that moves nodes but
+    keeps their number -> resample again): the trees a transform meets in practice are often RESULTS of transforms, with whatever those
+    left on the object (comments, source, caches, float32 columns off the lattice).  EVERY call of the chain is held to the property
+    against ITS OWN input.  Between the two resampling calls: TreeSmoother, a geometric Scale, an in-place edit of the coordinates of a
+    copy, a to_swc / read_swc round trip, nothing, or two of them; the last call uses the same spacing (through the same object or an
+    equal new one) or another spacing."""
+    out = []
+    q, q0 = 0, rng.randrange(len(PIPE_BETWEEN))
+    while q < (48 if big else 18):
+        between = PIPE_BETWEEN[(q0 + q) % len(PIPE_BETWEEN)]
+        if q % 3 == 2:
+            # wiggly off-lattice branches: a stem and two daughters
+            pids, xyz = [-1], [[0.0, 0.0, 0.0]]
+            for start, m in ((0, rng.randint(4, 9)), (None, rng.randint(4, 9)), (None, rng.randint(4, 9))):
+                prev = start if start is not None else f
+                for _ in range(m):
+                    pids.append(prev); xyz.append([round(xyz[prev][i] + rng.randint(-1500, 1500) / 1000, 3) for i in range(3)]); prev = len(pids) - 1
+                if start is not None:
+                    f = prev
+            if len({tuple(p) for p in xyz}) < len(xyz):
+                continue
+            t = {"n": len(pids), "pids": pids, "types": [1] + [3] * (len(pids) - 1), "xyz": xyz, "r": [rng.randint(2, 8) / 4 for _ in pids]}
+            shape = "float-Y"
+        else:
+            shape = rng.choice(["chain", "stem", "caterpillar", "binary", "random"])
+            t = lattice_tree(rng, gen.renumber_root0(rng, gen.parents_sorted(rng, rng.choice([6, 9, 14] + ([30] if big else [])), shape)))
+            if t is None:
+                continue
+        q += 1
+        d = rng.choice([0.4, 0.5, 0.75, 1.0, 1.5])
+        steps = [["iso", d]]
+        for b in between.split("+"):
+            if b == "smooth":
+                steps.append(["smooth", rng.choice([3, 5, 5, 7])])
+            elif b == "scale":
+                steps.append(["scale", rng.choice([0.5, 2.0, 4.0, 3.0])])
+            elif b == "edit":
+                steps.append(["edit", rng.randrange(10 ** 6)])
+            elif b == "reread":
+                steps.append(["reread", 0])
+        last = rng.choice(["same-object", "same-object", "equal-object", "other-spacing"])
+        steps.append(["iso", d if last != "other-spacing" else rng.choice([x for x in (0.4, 0.5, 1.0, 2.5) if x != d])])
+        out.append({"class": f"pipeline/iso-{between}-iso/{last}", "tree": t, "op": "pipeline", "steps": steps, "last": last,
+                    "comments": rng.choice([None, ["a header line"], ["ORIGINAL_SOURCE x", "SCALE 1.0 1.0 1.0"]]), "arg": d, "warm": None,
+                    "irrational": shape == "float-Y"})
+    return out
+
+
+def run_pipeline(case):
+    """the chain of `case["steps"]` on the real library; every step's output is recorded (it is the next step's input)"""
+    import os
+    import tempfile
+
+    from swcgeom.core import Tree
+    from swcgeom.transforms import IsometricResampler, Scale, TreeSmoother
+
+    def record(y, x):
+        return {"pid": y.pid().tolist(), "id": y.id().tolist(), "xyz": y.xyz().astype(float).tolist(), "r": [float(v) for v in y.r()],
+                "length": float(y.length()), "length_in": float(x.length())}
+
+    x = gen.make_tree(case["tree"], comments=case.get("comments"))
+    stages, resamplers = [], {}
+    with warnings.catch_warnings():
+        warnings.simplefilter("ignore")
+        for j, (op, arg) in enumerate(case["steps"]):
+            before = {k: v.copy() for k, v in x.ndata.items()}
+            if op == "iso":
+                fresh = case.get("last") == "equal-object" or arg not in resamplers
+                tr = IsometricResampler(arg) if fresh else resamplers[arg]
+                resamplers.setdefault(arg, tr)
+                y = tr(x)
+            elif op == "smooth":
+                y = TreeSmoother(arg)(x)
+            elif op == "scale":
+                y = Scale(arg, arg, arg)(x)
+            elif op == "edit":
+                # an in-place edit of a copy: the nodes with exactly one child are moved by up to a quarter of a unit
+                y = x.copy()
+                prng = random.Random(f"edit/{arg}")
+                pid = y.pid()
+                nk = np.bincount(pid[pid >= 0], minlength=len(pid))
+                for i in np.flatnonzero(nk == 1):
+                    if pid[i] >= 0:
+                        for col in (y.names.x, y.names.y, y.names.z):
+                            y.ndata[col][i] += prng.randint(-250, 250) / 1000
+            else:
+                fd, path = tempfile.mkstemp(suffix=".swc")
+                os.close(fd)
+                try:
+                    x.to_swc(path)
+                    y = Tree.from_swc(path)
+                finally:
+                    os.unlink(path)
+            st = record(y, x)
+            st["input_unchanged"] = bool(all(np.array_equal(before[k], x.ndata[k]) for k in before))
+            stages.append(st)
+            x = y
+    return {"stages": stages}
+
+
 class TreeSuite(Suite):
     name = "c16.tree"
     case_timeout = 60
@@ -665,11 +783,14 @@ class TreeSuite(Suite):
             cls = dsc.pop("class")
             op = ("smooth", rng.choice([3, 5])) if j % 3 == 1 else ("iso", rng.choice([0.5, 1.0, 2.5, 40.0]))
             out.append({"class": f"{op[0]}/{cls}", "deep": dsc, "op": op[0], "arg": op[1], "warm": None, "big": True})
+        out += pipeline_cases(rng, big)
         return out
 
     def run(self, case):
         from swcgeom.transforms import IsometricResampler, TreeSmoother
 
+        if case["op"] == "pipeline":
+            return run_pipeline(case)
         session = list(case.get("prior") or []) + [case_tree(case)]
         sources = case.get("sources") or [""] * len(session)
         trees = [gen.make_tree(td, source=src) for td, src in zip(session, sources)]
@@ -697,7 +818,9 @@ class TreeSuite(Suite):
     def oracle(self, case, res):
         t = case_tree(case)
         if "exc" in res:
-            return [(f"tree-{case['op']}-raises", f"{case['op']}({case['arg']}) on pids={short(t['pids'])} raised {res['exc']}: {res.get('msg')}")]
+            return [(f"tree-{case['op']}-raises", f"{case.get('steps') or case['op']}({case['arg']}) on pids={short(t['pids'])} raised {res['exc']}: {res.get('msg')}")]
+        if case["op"] == "pipeline":
+            return self.pipeline_verdict(case, t, res)
         # every call of a session is held to the property: the trees the transform object met before, then the tree itself
         session = list(zip(case.get("prior") or [], res.get("prior") or [])) + [(t, res)]
         out = []
@@ -706,6 +829,28 @@ class TreeSuite(Suite):
                 if len(session) > 1:
                     msg = f"call {q + 1} of {len(session)} of one {case['op']} transform object (pids={short(tq['pids'])}): {msg}"
                 out.append((key, msg))
+        return out[:3]
+
+    def pipeline_verdict(self, case, t, res):
+        """every resampling / smoothing call of the chain against ITS OWN input: the input of call j+1 is what call j returned"""
+        stages = res["stages"]
+        if len(stages) != len(case["steps"]):
+            return [("malformed-output", f"{len(stages)} results for {len(case['steps'])} calls")]
+        out = []
+        for j, ((op, arg), rq) in enumerate(zip(case["steps"], stages)):
+            if op in ("iso", "smooth"):
+                sub = dict(case, op=op, arg=arg, irrational=case.get("irrational") or j > 0)
+                for key, msg in self.verdict(sub, t, rq):
+                    out.append((key, f"call {j + 1} of the chain {case['steps']} (each call judged against its own input, pids={short(t['pids'])}): {msg}"))
+            if out:
+                break
+            # the next call's input: the tree this call returned; its root / furcations / tips are the (lattice) positions the property keeps
+            n = len(rq["id"])
+            if not (len(rq["pid"]) == len(rq["xyz"]) == len(rq["r"]) == n) or well_formed(rq["id"], rq["pid"]) is not None:
+                return [("malformed-output", f"call {j + 1} of the chain {case['steps']} returned a table that is not a tree")]
+            _, cr = crit(rq["pid"])
+            cr = set(cr)
+            t = {"n": n, "pids": rq["pid"], "r": rq["r"], "xyz": [[round(c, 4) for c in p] if i in cr else list(p) for i, p in enumerate(rq["xyz"])]}
         return out[:3]
 
     def verdict(self, case, t, res):
@@ -787,7 +932,7 @@ class TreeSuite(Suite):
                     lens = [math.dist(a, b) for a, b in zip(pts, pts[1:])]
                     Lb = sum(lens)
                     n_expected = int(math.ceil(Lb / d)) + 1
-                    irrational = case["class"].startswith("iso/float") or abs(Lb / unit - round(Lb / unit)) > 1e-9   # lattice branches have lengths that are multiples of the unit
+                    irrational = case.get("irrational") or case["class"].startswith("iso/float") or abs(Lb / unit - round(Lb / unit)) > 1e-9   # lattice branches have lengths that are multiples of the unit
                     if irrational and abs(Lb / d - round(Lb / d)) < 1e-3:
                         why = None; break      # an irrational branch length that is a multiple of the spacing up to rounding: either count is right
                     # steps along each branch: equal and no longer than the spacing — n-1 steps of L/(n-1)
@@ -805,7 +950,8 @@ class TreeSuite(Suite):
                         pq, rq = along(pts, lens, rr_in, sq)
                         if not close(res["xyz"][chain[q]], pq):
                             bad = ("resample-off-polyline", f"node {q} of a resampled branch of length {Lb} (d={d}) is at {res['xyz'][chain[q]]}, the original polyline at arc length {sq:.4f} is {pq}"); break
-                        if abs(res["r"][chain[q]] - rq) > 1e-4 * max(1.0, abs(rq)):
+                        rlo, rhi = radius_range(pts, lens, rr_in, sq, 1e-4 + ftol)
+                        if not rlo - 1e-4 * max(1.0, abs(rlo)) <= res["r"][chain[q]] <= rhi + 1e-4 * max(1.0, abs(rhi)):
                             bad = ("resample-radius", f"node {q} of a resampled branch of length {Lb} (d={d}) has radius {res['r'][chain[q]]}, linear interpolation along the branch gives {rq}"); break
                     if bad is None:
                         why = None; break
